@@ -79,7 +79,7 @@ def gen_stream(rng, big=False):
 def gen_case(rng, default_cap):
     mode = rng.choice([0, 1, 1, 2, 2])
     b = 0 if rng.random() < 0.85 else rng.choice([120, 10, 98])
-    strategy = rng.choice([0, 0, 0, 1])
+    strategy = rng.choice([0, 0, 0, 0, 1, 1, 2, 3])
     capacity = rng.choice([1, 2, 3, 4, 5, 6, 8, 11, 16, 64])
     alloc = None if rng.random() < 0.7 else rng.choice([0, 0, 1, 3, 8, 40])
     stream = gen_stream(rng)
@@ -89,6 +89,9 @@ def gen_case(rng, default_cap):
     for _ in range(rng.randint(0, 8)):
         r = rng.random()
         hist.append("E" if r < 0.02 else (0 if r < 0.06 else rng.choice([1, 1, 2, 3, 4, 5, 7, 100])))
+    if strategy >= 2:          # multi-line (pattern \n): the whole input is in memory first; no scripted read faults
+        hist = [k for k in hist if k not in ("E", 0)]
+        alloc = None
     needles = rng.sample([b"a", b"ab", b"b", b"ba", b"x", b""], rng.randint(1, 2))
     if b in (98, 120):
         needles = [n for n in needles if bytes([b]) not in n] or [b"a"]
@@ -196,7 +199,19 @@ def check_lib_cases(ctx, cases, stats, heavy=False):
         if any(len(l) > c["capacity"] for l in c["stream"].split(b"\n")):
             stats["line_longer_than_capacity"] += 1
         # ---- link 2: model vs code, all observables
-        if mout != cout:
+        ml = c["strategy"] >= 2
+        if ml:
+            stats["multi_line_cases"] += 1
+            # the summary printer counts pattern matches, not lines, in multi-line mode: not modelled
+            mvx = parse_val(mout) if mout.startswith("(") else None
+            same = mvx is not None and len(mvx) == len(cv) and all(x == y for i, (x, y) in enumerate(zip(mvx, cv)) if i != 3)
+        else:
+            same = mout == cout
+        # order of the protocol: begin first; a notified offset is also handed to finish
+        if events and (events[0][0] != 0 or (binev and cv[1] == 0 and (events[-1][0] != 5 or events[-1][2] == []))):
+            ctx.violation("sink protocol: begin is not the first call, or finish lacks the binary offset that was notified",
+                          dict(kind=1401, case=c, line=cl, events=repr(events)[:400]))
+        if not same:
             mv = parse_val(mout) if mout.startswith("(") else None
             which = "?"
             if mv is not None and len(mv) == len(cv):
@@ -211,7 +226,7 @@ def check_lib_cases(ctx, cases, stats, heavy=False):
         convert_noop = c["mode"] == 2 and b == 10
         if c["mode"] != 0 and not convert_noop:
             # (a) no detected byte in a delivered line (slice+convert: before the notification)
-            if c["strategy"] == 0 or c["mode"] == 1:
+            if c["strategy"] in (0,) or c["mode"] == 1:
                 bad = [e for e in lines_ev if bb in bz(e[-1])]
             else:
                 cut = events.index(binev[0]) if binev else len(events)
@@ -253,7 +268,7 @@ def check_lib_cases(ctx, cases, stats, heavy=False):
                     if not matched_ev and not c["passthru"] and std_out:
                         ctx.violation("convert mode: output although no line matches", dict(kind=1401, case=c, line=cl))
         # (d) text mode = detection off = plain grep of the raw bytes
-        if c["mode"] == 0 and c["stop"] is None and cv[1] == 0 and (c["strategy"] == 1 or 0 not in c["hist"]):
+        if c["mode"] == 0 and c["stop"] is None and cv[1] == 0 and not ml and (c["strategy"] == 1 or 0 not in c["hist"]):
             exp = ref_grep(c)
             got = [(e[0], e[1] if e[0] == 1 else e[2], bz(e[-1])) for e in lines_ev]
             if exp != got or binev:
@@ -378,7 +393,9 @@ def run_rg(args, cwd, stdin_path=None):
     return p.returncode, p.stdout, p.stderr
 
 
+ML_PATTERNS = {"ml_nl": "\\n", "ml_anb": "a\\nb", "ml_dot": "(?s)a.b"}
 OUTMODES = ["std", "std", "count", "lwm", "lwo", "passthru", "A1", "B1", "C2", "json", "only", "replace", "multiline",
+            "ml_nl", "ml_anb", "ml_dot",
             "vimgrep", "stats"]
 MODELLED = {"std": 2, "count": 3, "lwm": 4, "lwo": 5, "passthru": 2}
 
@@ -399,6 +416,10 @@ def straddle_files(cap):
         line = b"ab " + pad(cap - len(head) - 3 + (nul_at - cap)) + b"\x00" + pad(5) + b"\n"
         assert len(head) + 3 < cap and len(head) + len(line) > cap and (head + line).find(b"\x00") == nul_at
         res["t/" + name] = head + line + tail
+    # small files with the NUL inside the sniffed prefix: before / inside / after the lines a multi-line pattern matches
+    res["t/m0"] = b"x\nab\x00\nb\na\n"
+    res["t/m1"] = b"\x00a\nb\n"
+    res["t/m2"] = b"a\nb\nxa\nb\n\x00"
     row = b"a" + pad(62) + b"\n"
     for name, extra in (("al0", b"\x00"), ("al1", b"\x00a\n"), ("al2", b"a\x00\n"), ("al3", row + b"\x00")):
         res["t/" + name] = row * (cap // 64) + extra
@@ -434,8 +455,11 @@ def cli_round(ctx, rng, cap, stats, big_ok, fixed=None, invocations=None):
                 flag, explicit, mm, om = invocations[it][:4]
                 null = len(invocations[it]) > 4 and invocations[it][4]
                 invert, stdin_name = False, None
-            args = ["-F", "-e", "a", "-e", "ab", "-N", "--no-heading", "-H", "--sort", "path",
-                    "--mmap" if mm else "--no-mmap"]
+            if om in ML_PATTERNS:       # MultiLine strategy: -U with a pattern that can match the terminator
+                args = ["-U", "-e", ML_PATTERNS[om]]
+            else:
+                args = ["-F", "-e", "a", "-e", "ab"]
+            args += ["-N", "--no-heading", "-H", "--sort", "path", "--mmap" if mm else "--no-mmap"]
             if flag == 1:
                 args.append("--binary")
             if flag == 2:
@@ -446,7 +470,7 @@ def cli_round(ctx, rng, cap, stats, big_ok, fixed=None, invocations=None):
                 args.append("--null")
             args += {"std": [], "count": ["-c"], "lwm": ["-l"], "lwo": ["--files-without-match"],
                      "passthru": ["--passthru"], "A1": ["-A1"], "B1": ["-B1"], "C2": ["-C2"], "json": ["--json"],
-                     "only": ["-o"], "replace": ["-r", "Z"], "multiline": ["-U"], "vimgrep": ["--vimgrep"],
+                     "only": ["-o"], "replace": ["-r", "Z"], "multiline": ["-U"], "ml_nl": [], "ml_anb": [], "ml_dot": [], "vimgrep": ["--vimgrep"],
                      "stats": ["--stats"]}[om]
             if om == "json":
                 args = [a for a in args if a not in ("-N", "--no-heading", "-H")]
@@ -481,6 +505,23 @@ def cli_round(ctx, rng, cap, stats, big_ok, fixed=None, invocations=None):
             if mode != expect_mode:
                 ctx.violation("detection_for (model of from_low_args / is_explicit) disagrees with the property's table",
                               what, nfi=True)
+            if om in ML_PATTERNS and flag != 2:
+                # multi-line strategy: a NUL inside the sniffed prefix is seen before any match, so a traversed file
+                # is dropped and a named / --binary file yields at most the notice (exactly it when `\n` matches)
+                for n, pth in targets:
+                    content = files[n]
+                    nul = content.find(b"\x00")
+                    if nul < 0 or nul >= cap:
+                        continue
+                    mine = [l for l in out.split(b"\n") if l.startswith(pth + b":")]
+                    note = [l for l in mine if l.startswith(pth + b": binary file matches")]
+                    w2 = dict(what)
+                    w2["file"] = n
+                    if mode == 1 and mine:
+                        ctx.violation("multi-line, quit mode: a file with a NUL in the sniffed prefix is not dropped", w2)
+                    if mode == 2 and (mine != note or len(note) > 1 or (om == "ml_nl" and b"\n" in content and not note and not null)):
+                        ctx.violation("multi-line, convert mode: more than the notice (or no notice although `\\n` matches)", w2)
+                    stats["cli_ml_binary_files"] += 1
             if om not in MODELLED:
                 continue
             # ---- model prediction, file by file
@@ -588,6 +629,8 @@ def run(ctx):
            (1, False, True, "std")] + [(0, False, True, "multiline"), (0, True, True, "multiline"), (1, False, True, "multiline"),
                                   (0, False, True, "C2"), (0, True, True, "A1"), (0, False, True, "count"),
                                   (0, True, True, "json"), (0, False, True, "only"), (0, True, False, "multiline"),
+                                  (0, True, True, "ml_nl"), (1, False, False, "ml_nl"), (0, False, True, "ml_dot"), (0, True, False, "ml_anb"),
+                                  (1, False, True, "ml_anb"), (0, False, False, "ml_nl"),
                                   (0, False, False, "std", True), (0, True, True, "std", True), (1, False, True, "lwm", True),
                                   (0, True, False, "A1", True)]
     cli_round(ctx, rng, default_cap, stats, big_ok=False, fixed=straddle_files(default_cap), invocations=inv)
